@@ -43,7 +43,7 @@ TH = ('thorough',)
 EX = ('experimental',)
 INSTANCES = [
     # On /repo this reports the static / no-wait / tail defect (see NOTES.md).
-    inst('pf_static_n2', 2, 5, timeout=290, thorough={'timeout': 1500, 'defs': {'VF_N': 2, 'VF_S': 6, 'VF_MODE': 0, 'VF_WAIT': 2, 'VF_DEPTH': 3, 'VF_API': 0}}),
+    inst('pf_static_n2', 2, 5, timeout=900, thorough={'timeout': 1500, 'defs': {'VF_N': 2, 'VF_S': 6, 'VF_MODE': 0, 'VF_WAIT': 2, 'VF_DEPTH': 3, 'VF_API': 0}}),
     inst('pf_range_n2', 2, 5, api=2, tiers=EX, timeout=900),
     inst('foreach_n2', 2, 3, api=3, tiers=EX, VF_SPK=1),
     inst('pf_index_n2', 2, 3, api=1, tiers=EX, VF_SPK=1),
